@@ -712,3 +712,44 @@ Proof.
   cbn [map forall2b emit_okb fst snd] in *. subst o2.
   rewrite Z.eqb_refl, (data_relb_complete _ _ _ H2), IH. reflexivity.
 Qed.
+
+(* ---------------------------------------------------------------- end to end: the events behind Pipeline.In *)
+(* what leaves In depends on the delivered data only through what checkInputBytes makes of it: a stand-in of a line
+   (cut-off mode: first max bytes + junk) yields the same event as the line itself *)
+Lemma events_of_emitR c E E' : 0 <= wmax c -> Forall2 (emitR c) E E' -> events_of c E = events_of c E'.
+Proof.
+  intros Hm H. induction H as [|[o d] [o' d'] l l' [H1 H2] _ IH]; [reflexivity|].
+  cbn [events_of flat_map fst snd] in *. subst o'.
+  rewrite (dataR_check_input c d d' Hm H2). fold (events_of c l). fold (events_of c l'). rewrite IH. reflexivity.
+Qed.
+
+(* every configuration, every start offset, every pass / read structure: the events that reach the output are exactly the
+   admitted complete lines of the content - offset of the line's end, the line without its newline (cut to max bytes
+   and flagged when longer), in order, once *)
+Theorem worker_events c o sk0 rs : 0 <= wmax c ->
+  events_of c (fst (rounds c (st_at o sk0) rs)) = events_of c (spec_emits c sk0 o (flat rs)).
+Proof.
+  intros Hm. pose proof (worker_general c o sk0 rs Hm) as H. cbv zeta in H.
+  destruct (rounds c (st_at o sk0) rs) as [E st']. destruct H as [HF _]. cbn [fst].
+  apply events_of_emitR; assumption.
+Qed.
+
+(* the event of one complete line l0 ++ [NL] *)
+Theorem events_of_line c o l0 : 0 <= wmax c -> noNL l0 ->
+  events_of c [(o, l0 ++ [NL])] =
+  match l0 with
+  | [] => []
+  | _ :: _ =>
+      if check_max c && (len l0 + 1 >? wmax c)
+      then (if wcut c then [(o, firstn (Z.to_nat (wmax c)) l0, true)] else [])
+      else [(o, l0, false)]
+  end.
+Proof.
+  intros Hm Hn. cbn [events_of flat_map fst snd app]. rewrite (check_input_line c l0 Hm).
+  destruct l0 as [|x l0']; [reflexivity|].
+  destruct (check_max c && (len (x :: l0') + 1 >? wmax c)) eqn:Hc.
+  - destruct (wcut c); cbn [negb]; [|reflexivity]. rewrite removelast_last, app_nil_r.
+    unfold M. rewrite firstn_app_le; [reflexivity|].
+    apply andb_prop in Hc. destruct Hc as [_ Hc]. unfold len in *. lia.
+  - rewrite removelast_last. reflexivity.
+Qed.
